@@ -36,7 +36,7 @@ def scenarios(quick):
               (T.join2(maxseq=2), 'SpecPrompt', 8 if quick else 100, 150),
               (T.hidden(maxseq=1), 'Spec', 6 if quick else 100, 200),
               (T.tee_rejoin_multi(maxseq=3), 'SpecPrompt', 6 if quick else 80, 250),
-              (T.tee_rejoin_relay(maxseq=2), 'SpecPrompt', 6 if quick else 80, 250)],
+              (T.tee_rejoin_relay(maxseq=3), 'SpecPrompt', 6 if quick else 80, 300)],
         # random schedules on the real code: (topology, runs, steps, p_timeout, p_drop)
         rand=[(T.tee_rejoin2(maxseq=3), 10 if quick else 200, 700, 0.03, 0.0),
               (T.tee_rejoin2(maxseq=3, skipA=(0,), skip=(2,), slowB=True, explicit_b=True), 12 if quick else 200, 700, 0.03, 0.0),
@@ -46,7 +46,7 @@ def scenarios(quick):
               # varying topic sets + skipping branch + lost publishes: a half-read sibling buffer must be invalidated too
               (T.tee_rejoin_multi(maxseq=5), 14 if quick else 250, 900, 0.03, 0.08),
               # the rejoin is a relay (recv() is called with the sender's state): adopted ids must survive recv() slices
-              (T.tee_rejoin_relay(maxseq=3), 16 if quick else 250, 900, 0.03, 0.0)],
+              (T.tee_rejoin_relay(maxseq=4), 16 if quick else 250, 1200, 0.03, 0.0)],
     )
 
 
@@ -67,6 +67,7 @@ def run(ctx):
         bounds = dict(bounds)
         fk = {k: bounds.pop(k) for k in ('max_faults', 'fault_kinds') if k in bounds}
         eng.mutation_schedules(topo, spec, muts, invariant='C01', bounds=bounds, timeout=600, victims=topo.names if fk else (), **fk)
+    eng.stored_schedules('C01_')
     for topo, spec, num, depth in sc['conf']:
         eng.conformance(topo, spec, num, depth)
     eng.cover(topos.join2(maxseq=0), 'SpecPrompt', max_paths=150 if ctx.quick else None)
